@@ -7,7 +7,11 @@ use std::{
 
 use bytes::BytesMut;
 use pin_project_lite::pin_project;
+#[cfg(not(noodles_verif))]
 use tokio::task::JoinHandle;
+
+#[cfg(noodles_verif)]
+use crate::verif::tokio::{self, task::JoinHandle};
 
 use super::CompressionLevel;
 use crate::deflate;
